@@ -438,19 +438,103 @@ fn sep_next(
 }
 
 /// Drive an item iterator into a sink.
-fn run_sink(
-    sink: &Sink,
-    pos: usize,
+/// An iterable parser as the sinks see it: `make` = make_iter (runs once, before the first item; after the
+/// initial parser of a left fold), `next` = one step.
+trait ItM {
+    fn make(&mut self, _p: &mut usize, _w: &mut World) -> Result<(), ()> {
+        Ok(())
+    }
+    fn next(&mut self, n: usize, p: &mut usize, w: &mut World) -> Result<Option<Val>, ()>;
+}
+struct By<F>(F);
+impl<F: FnMut(usize, &mut usize, &mut World) -> Result<Option<Val>, ()>> ItM for By<F> {
+    fn next(&mut self, n: usize, p: &mut usize, w: &mut World) -> Result<Option<Val>, ()> {
+        (self.0)(n, p, w)
+    }
+}
+/// (pins the closure's signature so that it is inferred higher-ranked)
+fn by<F: FnMut(usize, &mut usize, &mut World) -> Result<Option<Val>, ()>>(f: F) -> By<F> {
+    By(f)
+}
+
+/// `IterParser for Then` over one or two links (a single link = that iterable itself).
+struct Chain<'g> {
+    parts: &'g [Part],
     env: Env,
-    w: &mut World,
-    next: &mut dyn FnMut(usize, &mut usize, &mut World) -> Result<Option<Val>, ()>,
-) -> R {
+    idx: usize,
+    cnt: usize,
+    items: Vec<Val>,
+}
+impl<'g> Chain<'g> {
+    fn start(&mut self, p: &mut usize, w: &mut World) -> Result<(), ()> {
+        self.cnt = 0;
+        if let Some(Part::Iter(a)) = self.parts.get(self.idx) {
+            // make_iter of into_iter() runs the parser
+            let (e, v) = eval(a, *p, self.env, w).ok_or(())?;
+            *p = e;
+            self.items = items_of(v);
+        }
+        Ok(())
+    }
+}
+impl<'g> ItM for Chain<'g> {
+    fn make(&mut self, p: &mut usize, w: &mut World) -> Result<(), ()> {
+        self.idx = 0;
+        self.start(p, w)
+    }
+    fn next(&mut self, _n: usize, p: &mut usize, w: &mut World) -> Result<Option<Val>, ()> {
+        loop {
+            let Some(part) = self.parts.get(self.idx) else { return Ok(None) };
+            let r = match part {
+                Part::Rep(item, bd) => rep_next(item, bd, self.cnt, p, self.env, w)?,
+                Part::Sep(item, sep, bd, l, t) => sep_next(item, sep, bd, *l, *t, self.cnt, p, self.env, w)?,
+                Part::Opt(a) => {
+                    if self.cnt > 0 {
+                        None
+                    } else {
+                        let m = w.mark();
+                        match eval(a, *p, self.env, w) {
+                            Some((e, v)) => {
+                                *p = e;
+                                Some(v)
+                            }
+                            None => {
+                                w.rewind(m);
+                                self.cnt = 1;
+                                None
+                            }
+                        }
+                    }
+                }
+                Part::Iter(_) => self.items.get(self.cnt).cloned(),
+            };
+            match r {
+                Some(v) => {
+                    self.cnt += 1;
+                    return Ok(Some(v));
+                }
+                None => {
+                    self.idx += 1;
+                    if self.idx >= self.parts.len() {
+                        return Ok(None);
+                    }
+                    self.start(p, w)?;
+                }
+            }
+        }
+    }
+}
+
+fn run_sink(sink: &Sink, pos: usize, env: Env, w: &mut World, it: &mut dyn ItM) -> R {
     let mut p = pos;
+    if !matches!(sink, Sink::Foldl(_) | Sink::FoldlWith(_)) {
+        it.make(&mut p, w).ok()?;
+    }
     match sink {
         Sink::Vec | Sink::Count | Sink::Bare | Sink::Enumerate | Sink::Str => {
             let mut vs = vec![];
             loop {
-                match next(vs.len(), &mut p, w) {
+                match it.next(vs.len(), &mut p, w) {
                     Ok(Some(v)) => vs.push(v),
                     Ok(None) => break,
                     Err(()) => return None,
@@ -470,7 +554,7 @@ fn run_sink(
         Sink::Exactly(n) => {
             let mut vs = vec![];
             for _ in 0..*n {
-                match next(vs.len(), &mut p, w) {
+                match it.next(vs.len(), &mut p, w) {
                     Ok(Some(v)) => vs.push(v),
                     Ok(None) => {
                         // the iterator stopped without an item failure being the reason for
@@ -490,9 +574,10 @@ fn run_sink(
         Sink::Foldl(init) | Sink::FoldlWith(init) => {
             let (e, mut acc) = eval(init, pos, env, w)?;
             p = e;
+            it.make(&mut p, w).ok()?;
             let mut n = 0;
             loop {
-                match next(n, &mut p, w) {
+                match it.next(n, &mut p, w) {
                     Ok(Some(v)) => {
                         n += 1;
                         acc = Val::P(bx(acc), bx(v));
@@ -510,7 +595,7 @@ fn run_sink(
             let mut items = vec![];
             loop {
                 let st = p;
-                match next(items.len(), &mut p, w) {
+                match it.next(items.len(), &mut p, w) {
                     Ok(Some(v)) => items.push((st, v)),
                     Ok(None) => break,
                     Err(()) => return None,
@@ -937,16 +1022,16 @@ fn eval0(g: &G, pos: usize, env: Env, w: &mut World) -> R {
             w.state = outer;
             r
         }
-        Rep(item, bd, sink) => run_sink(sink, pos, env, w, &mut |n, p, w| rep_next(item, bd, n, p, env, w)),
+        Rep(item, bd, sink) => run_sink(sink, pos, env, w, &mut by(|n, p, w| rep_next(item, bd, n, p, env, w))),
         RepCtx(item) => {
             let n = count_of(env.ctx) as u8;
             let bd = Bounds::new(n, Some(n));
-            run_sink(&Sink::Vec, pos, env, w, &mut |k, p, w| rep_next(item, &bd, k, p, env, w))
+            run_sink(&Sink::Vec, pos, env, w, &mut by(|k, p, w| rep_next(item, &bd, k, p, env, w)))
         }
         RepCtxMax(item) => {
             let n = count_of(env.ctx) as u8;
             let bd = Bounds::new(0, Some(n));
-            run_sink(&Sink::Vec, pos, env, w, &mut |k, p, w| rep_next(item, &bd, k, p, env, w))
+            run_sink(&Sink::Vec, pos, env, w, &mut by(|k, p, w| rep_next(item, &bd, k, p, env, w)))
         }
         TryRepCtx(item) => {
             if env.ctx == 'c' {
@@ -956,7 +1041,7 @@ fn eval0(g: &G, pos: usize, env: Env, w: &mut World) -> R {
             }
             let n = count_of(env.ctx) as u8;
             let bd = Bounds::new(n, Some(n));
-            run_sink(&Sink::Vec, pos, env, w, &mut |k, p, w| rep_next(item, &bd, k, p, env, w))
+            run_sink(&Sink::Vec, pos, env, w, &mut by(|k, p, w| rep_next(item, &bd, k, p, env, w)))
         }
         RepCtxPre(item, st, kind) => {
             let n = count_of(env.ctx) as u8;
@@ -968,7 +1053,7 @@ fn eval0(g: &G, pos: usize, env: Env, w: &mut World) -> R {
                 }
             }
             let bd = Bounds::new(mn, mx);
-            run_sink(&Sink::Vec, pos, env, w, &mut |k, p, w| rep_next(item, &bd, k, p, env, w))
+            run_sink(&Sink::Vec, pos, env, w, &mut by(|k, p, w| rep_next(item, &bd, k, p, env, w)))
         }
         IntoIter(a, sink) => {
             // make_iter runs the parser (also when no item is asked for); the items themselves consume nothing
@@ -988,12 +1073,16 @@ fn eval0(g: &G, pos: usize, env: Env, w: &mut World) -> R {
                 _ => {
                     let (e, v) = eval(a, pos, env, w)?;
                     let items = items_of(v);
-                    run_sink(sink, e, env, w, &mut |k, _p, _w| Ok(items.get(k).cloned()))
+                    run_sink(sink, e, env, w, &mut by(|k, _p, _w| Ok(items.get(k).cloned())))
                 }
             }
         }
+        IterChain(parts, sink) => {
+            let mut ch = Chain { parts, env, idx: 0, cnt: 0, items: vec![] };
+            run_sink(sink, pos, env, w, &mut ch)
+        }
         SepBy(item, sep, bd, lead, trail, sink) => {
-            run_sink(sink, pos, env, w, &mut |n, p, w| sep_next(item, sep, bd, *lead, *trail, n, p, env, w))
+            run_sink(sink, pos, env, w, &mut by(|n, p, w| sep_next(item, sep, bd, *lead, *trail, n, p, env, w)))
         }
         Then(a, c) => {
             let (e1, v1) = eval(a, pos, env, w)?;
